@@ -240,6 +240,88 @@ Proof.
   intros Hs He Hp. open_axis b; try discriminate; cbn -[Qplus Qminus Qmult Qdiv] in Hp; inj_all; finish.
 Qed.
 
+(* ---- min-height / max-height (CSS 2.1 10.7): absolute_height is wrapped by handle_min_max_height *)
+Lemma abs_height_frame cby cbh b v :
+  set_margins (set_size (fst (abs_height cby cbh b)) v) (a_ms b) (a_me b) = set_size b v.
+Proof. open_axis b; cbn -[Qplus Qminus Qmult Qdiv]; reflexivity. Qed.
+
+Lemma abs_height_frame2 cby cbh b u v :
+  set_margins (set_size (fst (abs_height cby cbh (set_size b u))) v) (a_ms b) (a_me b) = set_size b v.
+Proof. open_axis b; cbn -[Qplus Qminus Qmult Qdiv]; reflexivity. Qed.
+
+Lemma abs_height_keeps_specified_height cby cbh b v :
+  a_size (fst (abs_height cby cbh (set_size b v))) = Some v.
+Proof. open_axis b; cbn -[Qplus Qminus Qmult Qdiv]; reflexivity. Qed.
+
+(* while the height is auto after the rules (top or bottom auto), the wrapper does nothing; otherwise re-entering
+   absolute_height is one run of the rules with the clamp value as the specified height *)
+Theorem abs_height_min_max_reentry cby cbh minh maxh b :
+  let f := abs_height cby cbh in
+  match a_size (fst (f b)) with
+  | None => handle_min_max_h f minh maxh b = f b
+  | Some h1 =>
+      handle_min_max_h f minh maxh b =
+        (let over := match maxh with Some m => gtb h1 m | None => false end in
+         let h2 := if over then num0 maxh else h1 in
+         if gtb minh h2 then f (set_size b minh)
+         else if over then f (set_size b (num0 maxh)) else f b)
+  end.
+Proof.
+  cbv zeta. unfold handle_min_max_h.
+  destruct (a_size (fst (abs_height cby cbh b))) as [h1|] eqn:Hsz; [|reflexivity].
+  destruct (match maxh with Some m => gtb h1 m | None => false end) eqn:Eover.
+  - rewrite abs_height_frame. rewrite abs_height_keeps_specified_height.
+    destruct (gtb minh (num0 maxh)) eqn:Emin.
+    + rewrite abs_height_frame2. reflexivity.
+    + reflexivity.
+  - rewrite Hsz. destruct (gtb minh h1) eqn:Emin.
+    + rewrite abs_height_frame. reflexivity.
+    + reflexivity.
+Qed.
+
+(* consequence: with a specified height h the decorated function solves top, bottom and the margins for the
+   clamped height: the constraint of 10.6.4 holds for the used (clamped) height *)
+Corollary abs_height_min_max_constraint cby cbh minh maxh b h content p :
+  a_size b = Some h ->
+  over_constrained b = false ->
+  placed_of b (handle_min_max_h (abs_height cby cbh) minh maxh b) content = Some p ->
+  constraint_spec cby cbh (set_size b (clamped_width h minh maxh)) p.
+Proof.
+  intros Hh Hoc Hp.
+  pose proof (abs_height_min_max_reentry cby cbh minh maxh b) as Hre. cbv zeta in Hre.
+  assert (Hsz : a_size (fst (abs_height cby cbh b)) = Some h).
+  { destruct b as [s e z ms me pad pos]. cbn in Hh. subst z.
+    exact (abs_height_keeps_specified_height cby cbh (mk_axis s e None ms me pad pos) h). }
+  rewrite Hsz in Hre. rewrite Hre in Hp. clear Hre.
+  assert (Hoc' : forall v, over_constrained (set_size b v) = false).
+  { intro v. destruct b as [s e z ms me pad pos]. cbn in Hh. subst z. exact Hoc. }
+  assert (Hpos : forall v, a_pos (set_size b v) = a_pos b) by (intro v; destruct b; reflexivity).
+  unfold clamped_width. cbv zeta in *.
+  destruct maxh as [m|]; cbn [num0] in *.
+  - destruct (gtb h m).
+    + destruct (gtb minh m).
+      * apply (abs_height_constraint cby cbh (set_size b minh) content p (Hoc' minh)).
+        unfold placed_of in *. rewrite Hpos. exact Hp.
+      * apply (abs_height_constraint cby cbh (set_size b m) content p (Hoc' m)).
+        unfold placed_of in *. rewrite Hpos. exact Hp.
+    + destruct (gtb minh h).
+      * apply (abs_height_constraint cby cbh (set_size b minh) content p (Hoc' minh)).
+        unfold placed_of in *. rewrite Hpos. exact Hp.
+      * replace (set_size b h) with b by (destruct b as [s e z ms me pad pos]; cbn in Hh; subst z; reflexivity).
+        apply (abs_height_constraint cby cbh b content p Hoc). exact Hp.
+  - destruct (gtb minh h).
+    + apply (abs_height_constraint cby cbh (set_size b minh) content p (Hoc' minh)).
+      unfold placed_of in *. rewrite Hpos. exact Hp.
+    + replace (set_size b h) with b by (destruct b as [s e z ms me pad pos]; cbn in Hh; subst z; reflexivity).
+      apply (abs_height_constraint cby cbh b content p Hoc). exact Hp.
+Qed.
+
+Example abs_height_example_max_height :
+  exists p, placed_of (mk_axis None (Some 0) (Some 100) (Some 0) (Some 0) 0 0)
+              (handle_min_max_h (abs_height 0 200) 0 (Some 50) (mk_axis None (Some 0) (Some 100) (Some 0) (Some 0) 0 0)) 0 = Some p
+            /\ p_size p == 50 /\ p_x p == 150.
+Proof. eexists. split; [reflexivity|]. split; vm_compute; reflexivity. Qed.
+
 (* the height is only computed when top and bottom are specified; it then fills the rest *)
 Theorem abs_height_auto_height cby cbh b :
   a_size b = None ->
